@@ -164,13 +164,24 @@ impl StringHeap {
         R: Read + Seek,
         T: for<'a> BinRead<Args<'a> = (&'a StringHeap,)>,
     {
-        let old_pos = reader.stream_position().unwrap();
-        reader
-            .seek(SeekFrom::Start((self.pos as i32 + offset) as u64))
-            .unwrap();
-        let obj = reader.read_le_args::<T>((self,)).unwrap();
-        reader.seek(SeekFrom::Start(old_pos)).unwrap();
-        obj
+        self.try_read_args(reader, offset).unwrap()
+    }
+
+    /// Like `read_args`, but an offset outside the file or an object that does not parse is an error instead of a panic.
+    pub fn try_read_args<R, T>(&self, reader: &mut R, offset: i32) -> binrw::BinResult<T>
+    where
+        R: Read + Seek,
+        T: for<'a> BinRead<Args<'a> = (&'a StringHeap,)>,
+    {
+        let old_pos = reader.stream_position()?;
+        let pos = u64::try_from(self.pos as i64 + offset as i64).map_err(|_| Error::AssertFail {
+            pos: old_pos,
+            message: "offset points before the start of the file".to_string(),
+        })?;
+        reader.seek(SeekFrom::Start(pos))?;
+        let obj = reader.read_le_args::<T>((self,))?;
+        reader.seek(SeekFrom::Start(old_pos))?;
+        Ok(obj)
     }
 
     pub fn read_string<R>(&self, reader: &mut R, offset: u32) -> String
@@ -518,7 +529,7 @@ struct LayerHeader {
     #[br(temp)]
     #[bw(calc = data_heap.get_free_offset_args(&layer_set_referenced_list))]
     pub layer_set_referenced_list_offset: i32,
-    #[br(calc = data_heap.read_args(r, layer_set_referenced_list_offset))]
+    #[br(try_calc = data_heap.try_read_args(r, layer_set_referenced_list_offset))]
     #[bw(ignore)]
     pub layer_set_referenced_list: LayerSetReferencedList,
     pub festival_id: u16,
@@ -683,7 +694,9 @@ impl LayerGroup {
 
         for i in 0..chunk_header.layer_count {
             cursor
-                .seek(SeekFrom::Start(old_pos + layer_offsets[i as usize] as u64))
+                .seek(SeekFrom::Start(
+                    old_pos.checked_add_signed(layer_offsets[i as usize] as i64)?,
+                ))
                 .ok()?;
 
             let old_pos = cursor.position();
@@ -706,8 +719,8 @@ impl LayerGroup {
                     cursor
                         .seek(SeekFrom::Start(
                             old_pos
-                                + header.instance_object_offset as u64
-                                + instance_offsets[i as usize] as u64,
+                                .checked_add_signed(header.instance_object_offset as i64)?
+                                .checked_add_signed(instance_offsets[i as usize] as i64)?,
                         ))
                         .ok()?;
 
@@ -721,7 +734,7 @@ impl LayerGroup {
             {
                 cursor
                     .seek(SeekFrom::Start(
-                        old_pos + header.ob_set_referenced_list as u64,
+                        old_pos.checked_add_signed(header.ob_set_referenced_list as i64)?,
                     ))
                     .ok()?;
                 for _ in 0..header.ob_set_referenced_list_count {
@@ -733,7 +746,7 @@ impl LayerGroup {
             {
                 cursor
                     .seek(SeekFrom::Start(
-                        old_pos + header.ob_set_enable_referenced_list as u64,
+                        old_pos.checked_add_signed(header.ob_set_enable_referenced_list as i64)?,
                     ))
                     .ok()?;
                 for _ in 0..header.ob_set_enable_referenced_list_count {
